@@ -29,7 +29,8 @@ func init() {
 			"recipients built from parts (plain, +ext, mixed case, specials, quoted, source routes, IP literals, invalid, duplicates, " +
 			"aliases of one mailbox); endings DATA/RSET/EHLO/second MAIL/QUIT/abrupt close/oversized DATA refused under a small size limit; plus rounds of 2-6 concurrent sessions delivering to 1-3 shared mailboxes; plus multi-recipient transactions while the mailbox of one or two recipients (any position in the list) cannot be written " +
 			"(file store: index.gob unreadable in six ways, a regular file where a hash directory must be created, index.gob.tmp blocked; memory store with maxkb: only the short-named recipient's copy fits), " +
-			"where a reply of 250 is judged strictly (every accepted storable recipient holds exactly one copy) and the copies left behind by a refused transaction are counted, not judged. Oracle: full store snapshot delta after " +
+			"where a reply of 250 is judged strictly (every accepted storable recipient holds exactly one copy) and the copies left behind by a refused transaction are counted, not judged; plus sequential rounds in which another interface works on OTHER messages of the mailbox while deliveries to it are acknowledged " +
+			"(a POP3 session: login, UIDL, DELE of all/some/one/none of the messages it was shown, then QUIT, RSET+QUIT or a dropped connection; or a by-id removal through the message manager of ids listed earlier): every acknowledged message that party never named is in the mailbox exactly once afterwards. Oracle: full store snapshot delta after " +
 			"every transaction vs reference model over observed replies. A case is non-trivial and distinct by (config combo, sorted " +
 			"multiset of recipient classes with accept/store outcome, ending) when >=1 message was stored or >=1 accepted recipient was deliberately not stored.",
 		Assumptions: []string{
@@ -39,6 +40,7 @@ func init() {
 			"no extension is installed (redirects are C17)",
 			"policy lists are loaded through config.Process() from the process environment, one configuration after another in one child process",
 			"fault stream: storage faults are injected by tampering with the file store's directory between transactions (never during one), or arise from the memory store's size limit; under such a fault only the implication from a 250 reply is judged - what a refused (451) transaction leaves in the other recipients' mailboxes is outside the statement's quantifier and only counted",
+			"xiface stream: whether a message the POP3 session / the manager call NAMED is really gone afterwards is not judged here (C13), only counted; a POP3 dialogue that cannot be used (no greeting, login refused, UIDL unusable) is counted and the round is not judged",
 			"fault stream, memory store: exactly one recipient's copy fits the size limit (checked by observation, else the round is not judged), so eviction by the size limit - which C01 does not quantify over - cannot explain a missing copy",
 		},
 		MinObs: func(tier string) map[string]int64 {
@@ -52,6 +54,8 @@ func init() {
 			for _, k := range faultKinds {
 				m["fault_kind:"+k] = 10
 			}
+			// another interface removing OTHER messages of the mailbox (after C01-13, xiface.go)
+			xifaceMinObs(m)
 			for _, n := range namings {
 				for _, st := range []string{"true", "false"} {
 					for _, b := range []string{"mem", "file"} {
@@ -89,6 +93,11 @@ func run(c *fw.Ctx) {
 	// change C01-8).
 	c.Cases("fault", c.N(300, 6000), func(i int, r *fw.Rand) {
 		runFault(c, i, r)
+	})
+	// A POP3 session / a by-id removal through the manager working on OTHER messages of the mailbox
+	// while deliveries to it are acknowledged (xiface.go, added after seeded change C01-13).
+	c.Cases("xiface", c.N(400, 8000), func(i int, r *fw.Rand) {
+		runXIface(c, i, r)
 	})
 }
 
